@@ -155,6 +155,11 @@ func (c *compiler) compileTryStatement(v *ast.TryStatement, needResult bool) {
 			})
 			enter := &enterBlock{}
 			c.emit(enter)
+			if bodyNeedResult {
+				// the completion value of the statement is that of the catch block (UpdateEmpty(C, undefined)):
+				// whatever the try block had produced before it threw is discarded
+				c.emit(clearResult)
+			}
 			if pattern, ok := v.Catch.Parameter.(ast.Pattern); ok {
 				c.scope.bindings[0].emitGet()
 				c.emitPattern(pattern, func(target, init compiledExpr) {
@@ -180,6 +185,9 @@ func (c *compiler) compileTryStatement(v *ast.TryStatement, needResult bool) {
 			c.popScope()
 		} else {
 			c.emit(pop)
+			if bodyNeedResult {
+				c.emit(clearResult)
+			}
 			c.compileBlockStatement(v.Catch.Body, bodyNeedResult)
 		}
 		c.p.code[lbl2] = jump(len(c.p.code) - lbl2)
